@@ -43,10 +43,21 @@ pub fn describe_packed(o: &[u8]) -> String {
     format!("{} [lib e.p. file {:?}]", p.fen_with_ep(None), ep.map(|f| (b'a' + f) as char))
 }
 
+/// The standard hash of a board: alone, and as an element of an array / slice / Vec / tuple / Option
+/// (`Hash::hash_slice` and the container impls are part of "the standard Hash" as much as `hash` is).
 fn std_hash(b: &Board) -> u64 {
+    static START: std::sync::OnceLock<Board> = std::sync::OnceLock::new();
+    let start = *START.get_or_init(Board::default);
     let mut h = DefaultHasher::new();
     b.hash(&mut h);
-    h.finish()
+    let single = h.finish();
+    let mut h = DefaultHasher::new();
+    [start, *b].hash(&mut h);
+    vec![*b, start, *b].hash(&mut h);
+    (&[*b][..]).hash(&mut h);
+    (*b, 7u8).hash(&mut h);
+    Some(*b).hash(&mut h);
+    single ^ h.finish().rotate_left(17)
 }
 
 fn moves_str(v: &[RMove]) -> String {
@@ -778,6 +789,24 @@ impl NodeMon for C06 {
             if n.p.ep.is_some() {
                 rep.count("ev_std_fen_with_ep");
             }
+            // the two counters of a standard FEN are not part of the position: any values a writer that keeps
+            // them may have reached (draws are claimed, not automatic: clocks run past 100 and 150; long games
+            // pass move 255) must be accepted and change nothing
+            if rng.chance(1, 4) {
+                let half = *rng.pick(&[0u64, 1, 7, 49, 50, 99, 100, 101, 149, 150, 151, 199, 255, 256, 300, 999, 5000, 65535, 65536]);
+                let full = *rng.pick(&[1u64, 2, 30, 75, 128, 200, 254, 255, 256, 257, 300, 1000, 5949, 65535, 65536]);
+                let half = if rng.chance(1, 3) { rng.below(120) as u64 } else { half };
+                let with = format!("{} {} {}", &std[..std.len() - 4], half, full);
+                rep.count("op_board_from_str_std_counters");
+                match Board::from_str(&with) {
+                    Ok(t) => {
+                        if t != *b {
+                            rep.violation("C06/standard-input/counters-change-the-position", format!("standard FEN {:?} parses to {} but the position is {}", with, t, text));
+                        }
+                    }
+                    Err(e) => rep.violation("C06/standard-input/rejected/counters", format!("standard FEN {:?} {:?} (half-move clock {} / move number {})", with, e, half, full)),
+                }
+            }
         }
         // builder: validated state, then an arbitrary unvalidated one
         let bb: BoardBuilder = b.into();
@@ -789,6 +818,12 @@ impl NodeMon for C06 {
             // the same state reached through the setters in another order must convert to the same board
             let sb = builder_from_model_shuffled(n.p, rng);
             rep.count("op_builder_shuffled_setters");
+            // "the unvalidated builder renders ... the same way": the text of a builder state does not depend
+            // on the order in which its setters were called
+            let st = format!("{}", sb);
+            if st != n.p.fen() {
+                rep.violation("C06/builder/display-depends-on-setter-order", format!("builder state of {} (setters in another order) renders {:?}", n.p.fen(), st));
+            }
             match Board::try_from(&sb) {
                 // order (in)dependence of the setters is not part of C06's statement: counted only.
                 // (C07 judges a valid position that a builder state fails to convert.)
